@@ -119,7 +119,10 @@ type connKit struct {
 //
 // NOTE: This is part of the net.Conn interface.
 func (k *connKit) Read(b []byte) (int, error) {
-	if k.recvBuffer.Len() == 0 {
+	// An empty message (a zero-length Write of the peer) carries nothing to
+	// hand out, and reading from the empty buffer would report io.EOF, so
+	// we move on to the next message.
+	for k.recvBuffer.Len() == 0 {
 		data := NewMsgData(ProtocolVersion, nil)
 		if err := k.impl.ReceiveControlMsg(data); err != nil {
 			return 0, err
